@@ -715,6 +715,12 @@ func (i *interpreter) equalsV(t types.Type, x, y value) value {
 		if xv.t == nil {
 			return true
 		}
+		if xv.t == rtypeType {
+			return xv.v.(rtype).eq(nil, yv.v)
+		}
+		if xv.t == errorType {
+			return conc(xv.v) == conc(yv.v)
+		}
 		if !types.Comparable(xv.t) {
 			panic(runtimePanic{fmt.Sprintf("runtime error: comparing uncomparable type %s", xv.t)})
 		}
